@@ -27,6 +27,19 @@
     `get k` creates in state `s` (`Hit(hash, entry, now)` or `Miss(hash)`);
     `Sync.SkF.newReads p s op` is `[readOf p s k]` for `op = get k` in a fault-free state and
     `[]` otherwise.
+  * `getHashes p h` — the hashes of the `get` calls of the history `h`, in order.
+    `Sketch.runG (init cap, ghost0) hs = .ok (sk, g)`: recording `hs` from a fresh sketch gives
+    `sk` (and the ghost counts `g`), the form in which `Props/C14.lean` states its theorems.
+
+  Contents.
+  1. Unsync: `C14_unsync_only_get_records` (an operation other than `get` changes no estimate, in
+     every reachable state), with its state-level forms `C14_unsync_nonget_frame` /
+     `C14_unsync_nonget_state`; `C14_unsync_get_records_once(_state)`.
+  2. Sync: (a) `C14_sync_only_get_queues_reads`, `C14_sync_get_queues_one_read(')`;
+     (b) `C14_sync_sketch_fed_by_reads_only`, `C14_sync_enable_from_empty`, and the combined
+     `C14_sync_step_feed_state` / `C14_sync_step_feed`; `C14_sync_pure_ops`.
+  3. Whole histories: `C14_unsync_sketch_holds_exactly_the_gets`,
+     `C14_sync_sketch_holds_exactly_the_gets`.
 
   Everything below is proved in full (no `_partial`).  Hypotheses: `NoQuirks p` (all defect
   switches off: the current code) and `SmallSketch p` (sketch table below 2^28 slots, the
@@ -36,6 +49,7 @@
 -/
 import MiniMoka.Lemmas.SketchFrame
 import MiniMoka.Props.C09Seq
+import MiniMoka.Props.C14
 
 namespace MiniMoka
 namespace Props
@@ -175,13 +189,7 @@ theorem C14_sync_sketch_fed_by_reads_only (p : Params) :
   ⟨fun n s => applyWrites_sk p n s, fun s => evictExpired_sk p s,
    fun n s wte ev => evictLruLoop_sk p n s wte ev, fun s op => applyRead_sk p s op,
    fun n s => applyReads_sk p n s,
-   fun s hen => ⟨enableSketch_en p s hen, by
-     rcases enableSketch_en p s hen with ⟨_, h2⟩ | ⟨h1, _⟩
-     · unfold shouldEnableSketch at hen
-       cases hs : s.skOn with
-       | false => rfl
-       | true => rw [hs] at hen; simp at hen
-     · exact h1⟩⟩
+   fun s hen => ⟨enableSketch_en p s hen, shouldEnableSketch_off hen⟩⟩
 
 /-- (b) Enabling happens on a sketch that has recorded nothing: where the invariant of
 reachable states holds (`SkOK`: flag off → sketch empty), `enable_frequency_sketch` turns the
@@ -241,9 +249,9 @@ theorem C14_sync_step_feed (p : Params) (hq : Sync.NoQuirks p) (hsm : SmallSketc
   · refine Or.inr ⟨e1, hk.skOff e1, e2, cap, ?_⟩
     rw [e3, hk.skOff e1, Sketch.feed_default]; rfl
 
-/-- Consequence: in reachable states of the current code, the operations that neither queue
-nor run maintenance (`contains_key`, iteration, `invalidate_all`, clock steps, the hooks)
-change neither the sketch nor the read queue — for any configuration, any state. -/
+/-- The operations that neither queue an operation nor run maintenance (`contains_key`,
+iteration, `invalidate_all`, clock steps, the hooks) change neither the sketch, nor its flag,
+nor the read queue — for any configuration, in any state. -/
 theorem C14_sync_pure_ops (p : Params) (s : SState) (op : Op)
     (hop : ∀ k, op ≠ .get k) (hins : ∀ k v, op ≠ .ins k v) (hinv : ∀ k, op ≠ .inv k)
     (hsync : op ≠ .sync) :
@@ -251,5 +259,165 @@ theorem C14_sync_pure_ops (p : Params) (s : SState) (op : Op)
     (step p s op).1.readQ = s.readQ :=
   step_pure p s op hop hins hinv hsync
 
+/-! ## 3. Whole histories: the sketch holds exactly the lookups -/
+
+/-- **Unsync, whole histories.**  After any history `h` of the current code, the sketch is
+either still off and empty (nothing recorded, all estimates 0), or it was switched on at some
+point — `getHashes p h = pre ++ post`, the lookups before and after that moment — as a
+freshly sized sketch `init cap`, and is now exactly the result of recording `post`: the hashes
+of the `get` calls made since, in order, each once, and nothing else (a run of the sketch
+model, to which the theorems of `Props/C14.lean` apply: e.g. no estimate is below the ghost
+count `g` of that run). -/
+theorem C14_unsync_sketch_holds_exactly_the_gets (p : Params) (hq : Unsync.NoQuirks p)
+    (hsm : SmallSketch p) (h : List Op) :
+    ((Unsync.runState p {} h).skOn = false ∧ (Unsync.runState p {} h).sk = {}) ∨
+    ∃ pre post cap g, getHashes p h = pre ++ post ∧ (Unsync.runState p {} h).skOn = true ∧
+      Sketch.runG (Sketch.init cap, Sketch.ghost0) post = .ok ((Unsync.runState p {} h).sk, g) ∧
+      ∀ x, g x ≤ (Unsync.runState p {} h).sk.frequency x := by
+  have hr := (Unsync.SkF.runState_recorded sketchLaws hq hsm h
+    (Unsync.init_inv sketchLaws p) (Recorded.init _)).run
+  rw [List.nil_append] at hr
+  rcases hr with hr | ⟨pre, post, cap, g, h1, h2, h3⟩
+  · exact Or.inl hr
+  · exact Or.inr ⟨pre, post, cap, g, h1, h2, h3,
+      fun x => (Sketch.C14_never_underestimates cap post h3 x).1⟩
+
+/-- **Sync, whole histories.**  After any history `h` of the current code driven by one
+thread, the hashes of the `get` calls of `h` are, in order, those already `applied` to the
+sketch followed by those waiting in the read queue (none lost, none duplicated, nothing
+else queued); and the sketch is either still off and empty, or was switched on at some point
+of `applied = pre ++ post` as a freshly sized sketch and is now exactly the result of
+recording `post`. -/
+theorem C14_sync_sketch_holds_exactly_the_gets (p : Params) (hq : Sync.NoQuirks p)
+    (hsm : SmallSketch p) (h : List Op) :
+    ∃ applied, getHashes p h = applied ++ (stateAfter p {} h).readQ.map ROp.hash ∧
+      (((stateAfter p {} h).skOn = false ∧ (stateAfter p {} h).sk = {}) ∨
+       ∃ pre post cap g, applied = pre ++ post ∧ (stateAfter p {} h).skOn = true ∧
+        Sketch.runG (Sketch.init cap, Sketch.ghost0) post = .ok ((stateAfter p {} h).sk, g) ∧
+        ∀ x, g x ≤ (stateAfter p {} h).sk.frequency x) := by
+  have hr := stateAfter_recQ sketchLaws hq hsm h (reach_init sketchLaws)
+    (⟨[], rfl, Recorded.init _⟩ : RecQ Sketch.Good {} [])
+  rw [List.nil_append] at hr
+  obtain ⟨applied, h0, hrec⟩ := hr
+  refine ⟨applied, h0, ?_⟩
+  rcases hrec.run with hr | ⟨pre, post, cap, g, h1, h2, h3⟩
+  · exact Or.inl hr
+  · exact Or.inr ⟨pre, post, cap, g, h1, h2, h3,
+      fun x => (Sketch.C14_never_underestimates cap post h3 x).1⟩
+
+/-! ## Non-vacuity -/
+
+/-- Capacity 4 (entries): the sketch is switched on when the cache is half full. -/
+def exP : Params := { cap := some 4 }
+
+theorem exP_small : SmallSketch exP :=
+  ⟨fun c hc => by
+      have h4 : 4 = c := Option.some.inj hc
+      subst h4; decide,
+   fun _ _ _ => by show Sketch.sketchCapacity 0 ≤ 2 ^ 27; decide⟩
+
+/-- Two inserts (the second one crosses half capacity), then lookups of keys 1, 1, 2 and of
+the absent key 7. -/
+def exH : List Op := [.ins 1 10, .ins 2 20, .get 1, .get 1, .get 2, .get 7]
+
+/-- Unsync: the estimates are non-zero (2 for key 1, 1 for key 2, 1 for the *missed* key 7);
+an insert (of a new key, and an update), `contains_key`, iteration, `invalidate`,
+`invalidate_all`, `invalidate_entries_if` and a clock step leave the estimate of key 1 at 2
+(and the insert does insert: 3 entries); a `get` raises it to 3, a `get` of another key does
+not. -/
+example :
+    let s := Unsync.runState exP {} exH
+    s.skOn = true ∧ s.sk.frequency (exP.hash 1) = 2 ∧ s.sk.frequency (exP.hash 2) = 1 ∧
+    s.sk.frequency (exP.hash 7) = 1 ∧ s.map.length = 2 ∧
+    (Unsync.step exP s (.ins 3 30)).1.sk.frequency (exP.hash 1) = 2 ∧
+    (Unsync.step exP s (.ins 3 30)).1.map.length = 3 ∧
+    (Unsync.step exP s (.ins 1 11)).1.sk.frequency (exP.hash 1) = 2 ∧
+    (Unsync.step exP s (.has 1)).1.sk.frequency (exP.hash 1) = 2 ∧
+    (Unsync.step exP s .iter).1.sk.frequency (exP.hash 1) = 2 ∧
+    (Unsync.step exP s (.inv 1)).1.sk.frequency (exP.hash 1) = 2 ∧
+    (Unsync.step exP s .invAll).1.sk.frequency (exP.hash 1) = 2 ∧
+    (Unsync.step exP s (.invIf .all)).1.sk.frequency (exP.hash 1) = 2 ∧
+    (Unsync.step exP s (.adv 5)).1.sk.frequency (exP.hash 1) = 2 ∧
+    (Unsync.step exP s (.get 1)).1.sk.frequency (exP.hash 1) = 3 ∧
+    (Unsync.step exP s (.get 2)).1.sk.frequency (exP.hash 1) = 2 ∧
+    (Unsync.step exP s (.get 2)).1.sk.frequency (exP.hash 2) = 2 := by
+  decide +kernel
+
+/-- Unsync, the enabling moment: after the first insert the sketch is off and empty; the
+second insert (weighted size 2 = 4 / 2) switches it on: 128 words, all estimates 0 before and
+after.  A lookup made before that moment is not recorded (the empty sketch ignores it). -/
+example :
+    let s := Unsync.runState exP {} [.get 1, .ins 1 10]
+    let s' := (Unsync.step exP s (.ins 2 20)).1
+    s.skOn = false ∧ s.sk = {} ∧ s.sk.frequency (exP.hash 1) = 0 ∧
+    s'.skOn = true ∧ s'.sk = Sketch.init 128 ∧ s'.sk.table.size = 128 ∧
+    s'.sk.frequency (exP.hash 1) = 0 ∧ s'.sk.frequency (exP.hash 2) = 0 := by
+  decide +kernel
+
+/-- Sync, outside the periodic-sync interval (so that reads pile up in the queue): two
+inserts, a maintenance run (which switches the sketch on), three lookups. -/
+def exS : List Op := [.adv 600000000, .ins 1 10, .ins 2 20, .sync, .get 1, .get 1, .get 3]
+
+/-- Sync: the three reads are queued (two hits of key 1, a miss of key 3), not yet recorded;
+an insert, `contains_key`, iteration, `invalidate`, `invalidate_all` queue no read and change
+no estimate; a further `get` queues one more read; the next maintenance run records the
+queued reads (estimates 2 and 1) and empties the queue. -/
+example :
+    let s := stateAfter exP {} exS
+    s.skOn = true ∧ s.readQ.map ROp.hash = [exP.hash 1, exP.hash 1, exP.hash 3] ∧
+    s.sk.frequency (exP.hash 1) = 0 ∧
+    (step exP s (.ins 5 50)).1.readQ.length = 3 ∧ (step exP s (.ins 5 50)).1.writeQ.length = 1 ∧
+    (step exP s (.ins 5 50)).1.sk.frequency (exP.hash 1) = 0 ∧
+    (step exP s (.has 1)).1.readQ.length = 3 ∧ (step exP s .iter).1.readQ.length = 3 ∧
+    (step exP s (.inv 1)).1.readQ.length = 3 ∧ (step exP s .invAll).1.readQ.length = 3 ∧
+    (step exP s (.get 2)).1.readQ.map ROp.hash =
+      [exP.hash 1, exP.hash 1, exP.hash 3, exP.hash 2] ∧
+    (step exP s .sync).1.readQ = [] ∧
+    (step exP s .sync).1.sk.frequency (exP.hash 1) = 2 ∧
+    (step exP s .sync).1.sk.frequency (exP.hash 3) = 1 ∧
+    (step exP s .sync).1.sk.frequency (exP.hash 2) = 0 := by
+  decide +kernel
+
+/-- Sync, inside the periodic-sync interval every `get` first runs the maintenance (which
+records the reads queued before) and then queues its own read: after two lookups of key 1 one
+is recorded and one is waiting. -/
+example :
+    let s := stateAfter exP {} [.ins 1 10, .ins 2 20, .get 1, .get 1]
+    s.skOn = true ∧ s.readQ.map ROp.hash = [exP.hash 1] ∧ s.sk.frequency (exP.hash 1) = 1 := by
+  decide +kernel
+
+/-- Sync, the enabling moment: before the maintenance run the sketch is off and empty, the run
+switches it on (128 words, every estimate 0); the read queued before is applied to the empty
+sketch in that very run, i.e. not recorded. -/
+example :
+    let s := stateAfter exP {} [.adv 600000000, .get 1, .ins 1 10, .ins 2 20]
+    let s' := (step exP s .sync).1
+    s.skOn = false ∧ s.sk = {} ∧ s.readQ.map ROp.hash = [exP.hash 1] ∧
+    s'.skOn = true ∧ s'.sk = Sketch.init 128 ∧ s'.readQ = [] ∧
+    s'.sk.frequency (exP.hash 1) = 0 := by
+  decide +kernel
+
+/-- The hypotheses of the reachable-state theorems are satisfiable for this configuration. -/
+example : Unsync.NoQuirks exP ∧ Sync.NoQuirks exP ∧ SmallSketch exP := ⟨rfl, rfl, exP_small⟩
+
 end Props
 end MiniMoka
+
+section
+open MiniMoka.Props
+#print axioms C14_unsync_nonget_frame
+#print axioms C14_unsync_nonget_state
+#print axioms C14_unsync_only_get_records
+#print axioms C14_unsync_get_records_once_state
+#print axioms C14_unsync_get_records_once
+#print axioms C14_sync_only_get_queues_reads
+#print axioms C14_sync_get_queues_one_read
+#print axioms C14_sync_get_queues_one_read'
+#print axioms C14_sync_sketch_fed_by_reads_only
+#print axioms C14_sync_enable_from_empty
+#print axioms C14_sync_step_feed_state
+#print axioms C14_sync_step_feed
+#print axioms C14_sync_pure_ops
+#print axioms C14_unsync_sketch_holds_exactly_the_gets
+#print axioms C14_sync_sketch_holds_exactly_the_gets
+end
